@@ -22,6 +22,13 @@ func NewVerifMemTransport(scope defn.Scope, mtu int) *VerifMemTransport {
 	t.closed = make(chan struct{})
 	return t
 }
+
+// NewVerifMemTransportURI is NewVerifMemTransport with given local/remote URIs (management treats faces by URI scheme).
+func NewVerifMemTransportURI(local, remote *defn.URI, scope defn.Scope, mtu int) *VerifMemTransport {
+	t := NewVerifMemTransport(scope, mtu)
+	t.localURI, t.remoteURI = local, remote
+	return t
+}
 func (t *VerifMemTransport) String() string                     { return "VerifMemTransport" }
 func (t *VerifMemTransport) SetPersistency(p Persistency) bool  { t.persistency = p; return true }
 func (t *VerifMemTransport) GetSendQueueSize() uint64           { return 0 }
